@@ -20,7 +20,7 @@ def rand_any_gate(rng, n, us, bad=False):
         g = rand_gate(rng, n); d = dict(g, g="op")
         if bad:
             role = rng.choice(["ts", "cs"]) if d["cs"] else "ts"
-            d[role] = list(d[role]); d[role][rng.randrange(len(d[role]))] = n + rng.randrange(0, 3)
+            d[role] = list(d[role]); d[role][rng.randrange(len(d[role]))] = n + rng.randrange(0, 3) if (rng.random() < 0.8 or d.get("kind") == "Match") else 2**64 - 1   # the largest index there is
         return d
     if r < 0.76:
         qs = rng.sample(range(n), rng.randrange(0, n + 1))
